@@ -55,6 +55,10 @@ impl Sink {
         ensures sink_write(*old(self), *final(self), r, dec_digits(v))
     { unimplemented!() }
 }
+// Result::and / Result::or (std; arguments are evaluated by the caller before the call)
+pub assume_specification<T, E, U> [Result::<T, E>::and] (a: Result<T, E>, b: Result<U, E>) -> (r: Result<U, E>)
+    where T: core::marker::Destruct, E: core::marker::Destruct, U: core::marker::Destruct
+    ensures a is Ok ==> r == b, a is Err ==> r is Err && r->Err_0 == a->Err_0;
 // R17: `value.find(|c: char| !c.is_ascii_alphanumeric()).is_some()` (str pattern API)
 #[verifier::external_body]
 fn str_has_non_alnum(s: &str) -> (b: bool) { unimplemented!() }
